@@ -198,6 +198,8 @@ func runC12(p *Prog, r *Report) {
 	armEffectRule(p, r, "C12.R13", "config.parseConverterLine", "output:package", "OutputPackagePath", "OutputPackageName")
 	requireStructRule(p, r, "C12.R15")
 	overrideOverlapRule(p, r, "C12.R16")
+	converterArmInventoryRule(p, r, "C12.R17")
+	c03R4(p, r, "C12.R18", []string{"config", "config/parse"})
 	settingLinesTrimRule(p, r, "C12.R14")
 	armStoresRule(p, r, "C12.R8", "config.parseMethodLine", allArmKeys("config.parseMethodLine")...)
 	armStoresRule(p, r, "C12.R9", "config.parseConverterLine", allArmKeys("config.parseConverterLine")...)
